@@ -749,3 +749,21 @@ assign_byvalue = Contract(
     assumptions=['configuration: -byValue NM -joinedFeatureTags reference_name,NM; float(str(n)) == n for an integer tag (A3)'],
 )
 UNITS.append(assign_byvalue)
+
+
+assign_byvalue_missing = Contract(
+    PROP, F + '::assignReads', name='assignReads[-byValue NM, the read has no NM tag]',
+    params={'read': assign_read, 'countTable': count_table, 'args': assign_args_with({'byValue': 'NM'}),
+            'joinFeatures': ('const', True), 'featureTags': ('const', ['reference_name', 'NM']), 'sampleTags': ('const', ['SM']),
+            'more_args': ('const', []), 'blacklist_dic': 'none'},
+    setup=assign_setup,
+    requires=['read.has_tag("SM")', 'not read.has_tag("NM")'],
+    ensures={
+        # "by-value counting adds the tag's numeric value": a read without the tag adds nothing
+        'a_read_without_the_tag_adds_nothing':
+            'all(all(countTable[s][k] == 0 for k in countTable[s]) for s in countTable)',
+    },
+    raises={},
+    assumptions=['configuration: -byValue NM -joinedFeatureTags reference_name,NM'],
+)
+UNITS.append(assign_byvalue_missing)
